@@ -1117,6 +1117,7 @@ class MiniInt:
         self.select_only = False  # True: `return e;` ends the case with the ReturnStmt node itself (which return is taken), and
                                   # declarations whose initialiser is outside the fragment are kept opaque
         self.cur = []           # stack of the functions being evaluated (to find the lambdas they define)
+        self.store = None       # store(text, node, value, env) -> True if the rule models the assigned storage
 
     def _lambda_of(self, node):
         """the operator() of the lambda written at `node` (a LambdaExpr, possibly wrapped), looked up among the exported functions"""
@@ -1215,7 +1216,13 @@ class MiniInt:
             a_, b_ = kids(n)
             if op == "=":
                 v = self.expr(b_, env, depth)
-                env[strip(a_)["declId"]] = v
+                t_ = strip(a_)
+                if t_.get("declId") is None or t_["k"] != "DeclRefExpr":
+                    # a store into modelled storage (an element, a member): the rule's `store` hook takes it
+                    if self.store is None or not self.store(render(t_).replace(" ", ""), t_, v, env):
+                        raise AnalysisBroken("MiniInt: assignment to `%s` outside the fragment" % render(t_)[:60])
+                    return v
+                env[t_["declId"]] = v
                 return v
             if op == "&&":
                 return int(bool(self.expr(a_, env, depth)) and bool(self.expr(b_, env, depth)))
